@@ -191,9 +191,9 @@ def process_nodes_recursive(
                                     import re
 
                                     var_match = re.search(
-                                        r"var\((--[\w-]+)\)", raw_text_color
+                                        r"var\(\s*(--[\w-]+)", raw_text_color
                                     )
-                                    if var_match:
+                                    if var_match and var_match.group(1) in variables:
                                         var_name = var_match.group(1)
                                         if var_name in variables:
                                             # Update the variable definition
@@ -204,7 +204,10 @@ def process_nodes_recursive(
                                             # Update our local map so future usages see the new value
                                             var_def["value"] = tuned_rgb
                                     else:
-                                        pass  # Could not extract var name
+                                        # The property is not defined in this file, so its
+                                        # fallback supplied the color: rewrite the declaration.
+                                        update_decl_value(color_decl, tuned_rgb)
+                                        modified = True
                                 else:
                                     update_decl_value(color_decl, tuned_rgb)
                                     modified = True
